@@ -365,6 +365,217 @@ func seqOnce(x *mc.X) {
 	x.Tag("once=" + k.name)
 }
 
+// ---------------------------------------------------------------- (a') shared sub-expressions
+
+// sharedCtx builds programs as DAGs: one base Eval value that several larger programs are
+// derived from. The reference value is computed alongside with plain ints.
+type sharedCtx struct {
+	x        *mc.X
+	counters []*counter
+}
+
+type sprog struct {
+	e    lazy.Eval[int]
+	want int
+	desc string
+}
+
+func (c *sharedCtx) thunk(kind string) *counter {
+	k := &counter{kind: kind}
+	c.counters = append(c.counters, k)
+	return k
+}
+
+func (c *sharedCtx) call(v int) lazy.Eval[int] {
+	k := c.thunk("Call")
+	return lazy.Call(func() int { c.x.Tick(); k.runs++; return v })
+}
+
+func (c *sharedCtx) tail(v int) lazy.Eval[int] {
+	k := c.thunk("TailCall")
+	return lazy.TailCall(func() lazy.Eval[int] { c.x.Tick(); k.runs++; return lazy.Done(v) })
+}
+
+var sharedStarts = []string{"Done(1)", "Call(->3)", "TailCall(->Done(2))", "Map2(Done(1), Call(->3), a-b)"}
+var sharedPatterns = []string{"Map", "FlatMap(v=>Done)", "Map2(base, Done)", "Map2(Done, base)", "mixed", "FlatMap(v=>Call|TailCall)"}
+
+func (c *sharedCtx) start(i int) sprog {
+	switch i {
+	case 0:
+		return sprog{lazy.Done(1), 1, sharedStarts[0]}
+	case 1:
+		return sprog{c.call(3), 3, sharedStarts[1]}
+	case 2:
+		return sprog{c.tail(2), 2, sharedStarts[2]}
+	}
+	return sprog{lazy.Map2(lazy.Done(1), c.call(3), binaryG[0]), 1 - 3, sharedStarts[3]}
+}
+
+// bind appends the i-th bind of the given pattern (values are kept small modulo 1000).
+func (c *sharedCtx) bind(p sprog, pattern, i int) sprog {
+	kind := pattern
+	if pattern == 4 {
+		kind = i % 4
+	}
+	small := func(v int) int { return v % 1000 }
+	switch kind {
+	case 0:
+		f := unaryF[i%2]
+		return sprog{p.e.Map(func(a int) int { c.x.Tick(); return small(f(a)) }), small(f(p.want)), p.desc + ".Map"}
+	case 1:
+		return sprog{p.e.FlatMap(func(a int) lazy.Eval[int] { c.x.Tick(); return lazy.Done(a + i + 1) }), p.want + i + 1, p.desc + ".FlatMap"}
+	case 2:
+		return sprog{lazy.Map2(p.e, lazy.Done(i), func(a, b int) int { return a - b }), p.want - i, p.desc + ".Map2(_,Done)"}
+	case 3:
+		return sprog{lazy.Map2(lazy.Done(i), p.e, func(a, b int) int { return small(10*a + b) }), small(10*i + p.want), p.desc + ".Map2(Done,_)"}
+	}
+	if i%2 == 0 {
+		return sprog{p.e.FlatMap(func(a int) lazy.Eval[int] { c.x.Tick(); return c.call(a + 1) }), p.want + 1, p.desc + ".FlatMap(Call)"}
+	}
+	return sprog{p.e.FlatMap(func(a int) lazy.Eval[int] { c.x.Tick(); return c.tail(a + 2) }), p.want + 2, p.desc + ".FlatMap(TailCall)"}
+}
+
+var sharedExts = []struct{ name, fn string }{
+	{"Map(2a+1)", "Map"}, {"Map(7-a)", "Map"}, {"FlatMap(v=>Done(10v+1))", "FlatMap"}, {"FlatMap(v=>Call(->v+7))", "FlatMap"},
+	{"Map2(base, Done(5), a-b)", "Map2"}, {"Map2(Done(5), base, 10a+b)", "Map2"}, {"FlatMap(v=>TailCall(->Done(3v)))", "FlatMap"},
+}
+
+func (c *sharedCtx) extend(b sprog, e int) sprog {
+	switch e {
+	case 0:
+		return sprog{b.e.Map(unaryF[0]), unaryF[0](b.want), sharedExts[e].name}
+	case 1:
+		return sprog{lazy.Map(b.e, unaryF[1]), unaryF[1](b.want), sharedExts[e].name}
+	case 2:
+		return sprog{b.e.FlatMap(func(a int) lazy.Eval[int] { return lazy.Done(10*a + 1) }), 10*b.want + 1, sharedExts[e].name}
+	case 3:
+		return sprog{lazy.FlatMap(b.e, func(a int) lazy.Eval[int] { return c.call(a + 7) }), b.want + 7, sharedExts[e].name}
+	case 4:
+		return sprog{lazy.Map2(b.e, lazy.Done(5), binaryG[0]), b.want - 5, sharedExts[e].name}
+	case 5:
+		return sprog{lazy.Map2(lazy.Done(5), b.e, binaryG[1]), 50 + b.want, sharedExts[e].name}
+	}
+	return sprog{b.e.FlatMap(func(a int) lazy.Eval[int] { return c.tail(3 * a) }), 3 * b.want, sharedExts[e].name}
+}
+
+// extension sets: every ordered pair of different extensions and seven triples
+func sharedExtSets() [][]int {
+	var out [][]int
+	n := len(sharedExts)
+	for i := 0; i < n; i++ {
+		for j := 0; j < n; j++ {
+			if i != j {
+				out = append(out, []int{i, j})
+			}
+		}
+	}
+	for i := 0; i < n; i++ {
+		out = append(out, []int{i, (i + 1) % n, (i + 2) % n})
+	}
+	return out
+}
+
+var sharedModes = []string{
+	"all extensions built, evaluated in order",
+	"all extensions built, evaluated in reverse order",
+	"all extensions built, the first evaluated twice, then the others, then the first again",
+	"base evaluated once, then all extensions built and evaluated in order",
+	"build one, evaluate it, build the next, evaluate it, ...; finally the first again",
+}
+
+const sharedMaxBinds = 12
+
+// sharedBase: one base expression (a start followed by k binds) is extended two or three
+// times with different continuations; every derived program must equal strict evaluation in
+// every evaluation order, and every thunk (those of the shared base included) runs at most once.
+func sharedBase(x *mc.X) {
+	sets := sharedExtSets()
+	nb := len(sharedStarts) * len(sharedPatterns) * (sharedMaxBinds + 1)
+	bi := x.Choose(nb, "base: start x bind pattern x number of binds")
+	k := bi % (sharedMaxBinds + 1)
+	pattern := bi / (sharedMaxBinds + 1) % len(sharedPatterns)
+	st := bi / (sharedMaxBinds + 1) / len(sharedPatterns)
+	set := sets[x.Choose(len(sets), "extensions")]
+	mode := x.Choose(len(sharedModes), "evaluation order")
+	c := &sharedCtx{x: x}
+	base := c.start(st)
+	for i := 0; i < k; i++ {
+		base = c.bind(base, pattern, i)
+	}
+	x.Logf("base = %s (%d binds, pattern %s), strict value %d", base.desc, k, sharedPatterns[pattern], base.want)
+	x.Tag(fmt.Sprintf("shared/binds=%d", k))
+	x.Tag("shared/pattern=" + sharedPatterns[pattern])
+	x.Tag(fmt.Sprintf("shared/extensions=%d", len(set)))
+	if k >= 1 {
+		x.NonTrivial()
+	}
+	get := func(p sprog, what string) {
+		var got int
+		pv := mc.Catch(func() { got = p.e.Get() })
+		x.Logf("%s: base.%s = %d (strict %d)", what, p.desc, got, p.want)
+		if pv != nil || got != p.want {
+			res := fmt.Sprintf("= %d", got)
+			if pv != nil {
+				res = fmt.Sprintf("panicked: %v", pv)
+			}
+			var names []string
+			for _, e := range set {
+				names = append(names, sharedExts[e].name)
+			}
+			fn := "Map"
+			for _, e := range sharedExts {
+				if e.name == p.desc {
+					fn = e.fn
+				}
+			}
+			x.Fail("lazy."+fn+"/shared-base-wrong-value", "base = %s (%d binds) extended with %v; %s; %s: base.%s %s, strict evaluation gives %d",
+				base.desc, k, names, sharedModes[mode], what, p.desc, res, p.want)
+		}
+	}
+	var progs []sprog
+	switch mode {
+	case 0, 1, 2, 3:
+		if mode == 3 {
+			get(sprog{base.e, base.want, "(itself)"}, "base first")
+		}
+		for _, e := range set {
+			progs = append(progs, c.extend(base, e))
+		}
+		switch mode {
+		case 0, 3:
+			for i, p := range progs {
+				get(p, fmt.Sprintf("evaluation %d", i+1))
+			}
+		case 1:
+			for i := len(progs) - 1; i >= 0; i-- {
+				get(progs[i], fmt.Sprintf("evaluation %d", len(progs)-i))
+			}
+		case 2:
+			get(progs[0], "evaluation 1")
+			get(progs[0], "evaluation 2")
+			for i, p := range progs[1:] {
+				get(p, fmt.Sprintf("evaluation %d", i+3))
+			}
+			get(progs[0], "last evaluation")
+		}
+	case 4:
+		for i, e := range set {
+			p := c.extend(base, e)
+			progs = append(progs, p)
+			get(p, fmt.Sprintf("evaluation %d", i+1))
+		}
+		get(progs[0], "last evaluation")
+	}
+	executed := 0
+	for _, t := range c.counters {
+		if t.runs > 1 {
+			x.Fail("lazy."+t.kind+"/thunk-ran-twice", "a %s thunk was executed %d times while programs sharing base = %s were evaluated (%s)", t.kind, t.runs, base.desc, sharedModes[mode])
+		}
+		executed += t.runs
+	}
+	x.Observe(bi, fmt.Sprint(set), mode, executed, len(c.counters))
+}
+
 type boom struct{ n int }
 
 // panicMode: 0 = the thunk panics on its first execution only, 1 = on every execution.
@@ -785,6 +996,7 @@ func main() {
 	mc.Main("C16", func(r *mc.Registry) {
 		r.Rule = "eval/*: every expression tree with at most N nodes over {Done 1|2, Call ->3, Done(arg) under a FlatMap binder, TailCall, TailCall2, Map f, FlatMap, Map2 g} x Get called 0..3 times x (methods | package functions); non-trivial = demanded and at least two nodes, or a thunk demanded at least twice; distinct = (program, gets, value, thunk executions). " +
 			"stack/*: variant x every depth 0..2000, and variant x ladder rung; call frames sampled inside the recursive function at steps 0..3, powers of two and every 128th (ladder: 65536th) step. " +
+			"eval/shared-base: (start in {Done, Call, TailCall, Map2} x bind pattern in {Map, FlatMap->Done, Map2(base,_), Map2(_,base), mixed, FlatMap->Call|TailCall} x 0..12 binds) = one shared base Eval value x (every ordered pair of 7 different extensions through Map/FlatMap/Map2, and 7 triples) x 5 build/evaluation orders; every derived program is compared with strict evaluation, every thunk incl. those of the shared base runs <= 1 time. " +
 			"eval/panicking-thunk: deferred-computation kind x (thunk panics on its first execution only | on every execution) x 3..4 requests, each under recover; conc-panic/*: the same thunks (panic after a scheduling point) demanded by 2 threads 1..2 times each, every interleaving. Only the execution count (<= 1) is judged there. " +
 			"conc/*: every interleaving (sleep sets) of the threads at every sync.Once entry/exit of the library and at a point inside each thunk body; non-trivial = the scheduler switched between two started threads"
 		r.Assumptions = []string{
@@ -803,6 +1015,9 @@ func main() {
 		}
 		sc := r.Seq("eval/trees", evalScenario(maxNodes))
 		sc.SplitDepth = 3
+		sc.Shard = true
+		sc = r.Seq("eval/shared-base", sharedBase)
+		sc.SplitDepth = 2
 		sc.Shard = true
 		r.Seq("eval/memoize-sequential", seqOnce)
 		r.Seq("eval/panicking-thunk", seqPanic)
